@@ -2094,14 +2094,14 @@ def gen_congruence_edge(tier, rng):
 
 def gen_corridx_lengths(tier, rng):
     """factor lists of DIFFERENT lengths (zip pairs the common prefix): the rank check still concerns every matrix of BOTH lists --
-    a matrix of another rank in the unpaired tail of either list is rejected; with uniform ranks the per-mode methods compare the
-    common prefix, `stacked' compares the two stacks (rejected unless the total heights agree); an empty second list is rejected
-    whatever the method (avg_score would otherwise average nothing)"""
+    a matrix of another rank in the unpaired tail of either list is rejected; an empty second list is rejected whatever the method
+    (avg_score would otherwise average nothing).  Only requests that must be REJECTED are generated: whether lists of different
+    lengths and uniform rank are accepted is not something the property states"""
     calls = []
     for k in range(16 if tier == "quick" else 48):
         r = rng.randint(1, 3); hs = [rng.randint(1, 3) for _ in range(2)]
         A = factor_set(rng, r, hs); B = factor_set(rng, r, hs)
-        kind = ["tail_rank_second", "tail_rank_first", "prefix_valid", "empty_second_avg"][k % 4]
+        kind = ["tail_rank_second", "tail_rank_first", "tail_rank_long", "empty_second_avg"][k % 4]
         meth = ["max_score", "min_score", "avg_score"][(k // 4) % 3]
         if kind == "tail_rank_second":
             A = A[:1]; B = [B[0], dyadic_matrix(rng, hs[1], r + 1)]
@@ -2109,12 +2109,13 @@ def gen_corridx_lengths(tier, rng):
         elif kind == "tail_rank_first":
             B = B[:1]; A = [A[0], dyadic_matrix(rng, hs[1], r + 1)]
             calls.append(dict(As=A, Bs=B, method=meth, malformed=kind, stream="lengths"))
-        elif kind == "prefix_valid":
+        elif kind == "tail_rank_long":        # two full pairs, then a third matrix of another rank on one side only
+            extra = dyadic_matrix(rng, rng.randint(1, 3), r + 1)
             if (k // 4) % 2 == 0:
-                A = A[:1]
+                B = B + [extra]
             else:
-                B = B[:1]
-            calls.append(dict(As=A, Bs=B, method=meth, tol=None, stream="lengths-valid"))
+                A = A + [extra]
+            calls.append(dict(As=A, Bs=B, method=meth, malformed=kind, stream="lengths"))
         else:
             calls.append(dict(As=A, Bs=[], method="avg_score" if (k // 4) % 2 == 0 else meth, malformed=kind, stream="lengths"))
     return calls
@@ -2139,8 +2140,10 @@ def gen_permute_ties(tier, rng):
         as_list = (k % 2 == 1)
         extra = {}
         if as_list:
-            s2 = list(range(r)); rng.shuffle(s2)
-            extra = dict(sigma_other=s2, Bs_other=equivalent_copy(A, s2, scalings(rng, r, nm, "signed")),
+            # the second tensor of the list is UNRELATED to the reference: two equivalent copies of a reference with repeated components
+            # can have the same exact congruence matrix while scipy, seeing two float matrices that differ in the last bits, breaks the
+            # tie differently -- the replay of the recorded answers by matrix look-up (Corr.C20.assign_tape) would then mis-attribute one
+            extra = dict(sigma_other=None, Bs_other=factor_set(rng, r, hs),
                          w_other=np.array([rng.choice([0.25, 1.5, 4.0, -2.0]) for _ in range(r)]))
         calls.append(dict(As=A, Bs=B, w=w, wref=wref, sigma=sigma, as_list=as_list, pick=(k // 2) % 2, stream="ties", **extra))
     return calls
